@@ -28,6 +28,9 @@ def find_semgrep_results(
     files_to_analyze: list[Path] | None = None,
 ) -> ResultSet:
     """Run semgrep once with all configuration files from all codemods and return a set of applicable rule IDs"""
+    if files_to_analyze is not None and not files_to_analyze:
+        # no candidate file at all: nothing to scan (and no reason to fall back to the whole directory)
+        return ResultSet()
     if not (
         yaml_files := list(
             itertools.chain.from_iterable(
